@@ -810,6 +810,17 @@ def _mk_bip(kind, L, Rr, edges):
         return G
     if kind == 'complete':
         return CompleteBipartiteGraph(L, Rr)
+    if kind == 'nxstr':
+        # what a dot file gives: string labels, the sides as the strings '0' / '1',
+        # right vertices inserted first, further attributes on nodes and edges
+        G = networkx.Graph(name='from a dot file')
+        for v in range(1, Rr + 1):
+            G.add_node('r%d' % v, bipartite='1', color='red')
+        for u in range(1, L + 1):
+            G.add_node('l%d' % u, bipartite='0')
+        for (u, v) in edges:
+            G.add_edge('r%d' % v, 'l%d' % u, weight='1')
+        return G
     G = networkx.Graph()
     G.add_nodes_from(range(1, L + 1), bipartite=0)
     G.add_nodes_from(range(L + 1, L + Rr + 1), bipartite=1)
@@ -1023,7 +1034,7 @@ def graph_cases(tier):
                                     cs.append({'part': 'G', 'fam': fam, 'gkind': gk, 'graphs': [g, b],
                                                'opt': oi, 'cls': cls})
                 else:
-                    for gk in ('cnfgen', 'nx', 'named'):
+                    for gk in ('cnfgen', 'nx', 'named', 'nxstr'):
                         for b in bips:
                             cs.append({'part': 'G', 'fam': fam, 'gkind': gk, 'graphs': [b], 'opt': oi, 'cls': cls})
                     if fam in ('gphp', 'subsetcard', 'varcompression', 'vm:sparse_mapping', 'vm:bipartite_edges'):
